@@ -93,6 +93,9 @@ def classify(e, names):
         src = "ancient-dst-zone"
     k = e["e"]
     if e.get("ub") == 1:
+        if src == "ancient-dst-zone" and "cs" in e and from_limbs(e["cs"][0]) > (1 << 62):
+            # the listed finding: `cs.year() - last_year_` in MakeTime with a negative last_year_
+            return "%s:%s:undefined-behaviour:civil-year-near-int64-max" % (k, src)
         return "%s:%s:undefined-behaviour" % (k, src)
     return "%s:%s:wrong-result" % (k, src)
 
